@@ -15,6 +15,9 @@ fn main() -> Result<(), Box<dyn std::error::Error>> {
     // Rebuild when proto file changes
     println!("cargo:rerun-if-changed=proto/kyrodb.proto");
 
+    // Verification hooks are compiled only under `--cfg kyrodb_verif`.
+    println!("cargo:rustc-check-cfg=cfg(kyrodb_verif)");
+
     // ============================================================================
     // STEP 2: Capture build metadata
     // ============================================================================
